@@ -416,3 +416,45 @@ def check_rdisc(run, world, modname, fq, cfg, ys, mod, rule="R-RDISC",
                            "may be None" % (X, X),
                            "%s:%s" % (mod.relpath, n.lineno))
     return n_sites
+
+
+# ---------------------------------------------------------------------------
+def enumerate_yield_paths(cfg, ys, limit=4096, loop_bound=1):
+    """Yield sequences along all entry->exit/raise paths of a CFG, pruning
+    edges that contradict condition facts established earlier on the same
+    path (facts on a name are dropped when the name is reassigned).  Loops are
+    unrolled `loop_bound` times.  Returns a list of (tuple of YieldInfo,
+    'exit'|'raise', cond facts, last statement node)."""
+    ynode = {y.node.id: y for y in ys}
+    out = []
+    cet = cond_edge_transfer()
+    stack = [(cfg.entry, (), frozenset(), {}, None)]
+    steps = 0
+    while stack:
+        steps += 1
+        if steps > 400000:
+            raise AnalysisError("path enumeration exploded in %s" % cfg.name)
+        n, seq, st, visits, last = stack.pop()
+        st = kill_conds_on_assign(n, st)
+        if n.id in ynode:
+            seq = seq + (ynode[n.id],)
+        if n is cfg.exit or n is cfg.raise_exit:
+            out.append((seq, "exit" if n is cfg.exit else "raise", st, last))
+            if len(out) > limit:
+                raise AnalysisError("too many paths in %s" % cfg.name)
+            continue
+        c = visits.get(n.id, 0)
+        if c > loop_bound:
+            continue
+        v2 = dict(visits)
+        v2[n.id] = c + 1
+        for (l, m) in n.succ:
+            if l == "exc" and not (n.kind == "stmt" and isinstance(
+                    n.ast, ast.Raise)):
+                continue
+            s2 = cet(n, l, m, st)
+            if s2 is None:
+                continue
+            stack.append((m, seq, s2, v2,
+                          n if n.kind == "stmt" else last))
+    return out
